@@ -1,7 +1,342 @@
-import Momo.Model.Sort
-/-! # C17 (under construction) -/
-namespace Momo.Sort
+import Momo.Proof.SortApi
+/-!
+# C17 — Hash sorting groups equal items and its searches agree with a linear scan
 
-theorem C17_stub : stepCount 0 = 0 := by decide
+Property theorems only.  Model: `Momo/Model/Sort.lean` (every array access checked; `none` = access outside
+the sequence / wrapped `size_t` subtraction / failed `MOMO_ASSERT` / exhausted loop fuel); lemmas:
+`Momo/Proof/Sort*.lean`.
+
+Statement (properties.jsonl): for every input sequence, hash function and equality, `HashSorter::Sort` (plain
+and prehashed) permutes the sequence so that hash codes are non-decreasing and equal items are contiguous,
+keeping any parallel hash array in step; `RadixSorter` sorts integers and pointers into non-decreasing order.
+On any sequence arranged that way - including the empty sequence - `Find`, `GetBounds` and `IsSorted` return
+exactly what a linear scan returns.
+
+Every theorem below concludes `… = some …`: the model never reports an out-of-range access on the inputs
+quantified over.  "Equality" is any `Bool`-valued equivalence relation (`IsEqv`), "hash function" any
+function into 64-bit codes under which equal items have equal codes (required only of the items actually
+present).  No bound on the length of the sequence appears anywhere.
+-/
+namespace Momo.Sort
+variable {α : Type}
+
+/-! ## the interpolation index -/
+
+/-- **C17 (`pvMultShift`).** `pvMultShift(h, n) < n` for every 64-bit `h` and every `n > 0` (any `n`, also
+`≥ 2^64`): the interpolated start index of `pvFindHash` is inside the sequence.  All 64-bit wrap-arounds of
+the C++ expression are part of the model. -/
+theorem C17_multShift_lt (h n : Nat) (hh : h < 2 ^ 64) (hn : 0 < n) : multShift h n < n :=
+  multShift_lt h n hh hn
+
+/-- `pvMultShift(h, n)` never exceeds the exact value `⌊h·n / 2^64⌋` it approximates. -/
+theorem C17_multShift_le_exact (h n : Nat) (hh : h < 2 ^ 64) (hn : n < 2 ^ 64) : multShift h n ≤ h * n / 2 ^ 64 :=
+  multShift_le_mulhi h n hh hn
+
+/-! ## Sort -/
+
+/-- **C17 (`HashSorter::Sort`).** "For every input sequence, hash function and equality, Sort permutes the
+sequence so that hash codes are non-decreasing and equal items are contiguous."  `hashSort (plainMem hash)` is
+`HashSorter::pvSort` with `IterHashFunc` and `std::iter_swap` (RadixSorter<8> on the 64-bit codes, selection
+sort, in-place partition, recursion, `pvGroup` on runs of equal codes). -/
+theorem C17_sort_plain (hash : α → Nat) (eq : α → α → Bool) (he : IsEqv eq) (a : Array α)
+    (hresp : ∀ x ∈ a.toList, ∀ y ∈ a.toList, eq x y = true → hash x = hash y)
+    (h64 : ∀ x ∈ a.toList, hash x < 2 ^ 64) :
+    ∃ a', hashSort (plainMem hash) eq a a.size = some a' ∧
+      a'.toList.Perm a.toList ∧
+      a'.toList.Pairwise (fun x y => hash x ≤ hash y) ∧
+      Grouped eq a'.toList := by
+  have L := plainMem_lawful hash
+  have hcells : ∀ x ∈ plainCells hash a, x.2 < 2 ^ 64 := by
+    intro x hx
+    obtain ⟨x', hx', rfl⟩ := List.mem_map.1 hx
+    exact h64 x' hx'
+  obtain ⟨a', h1, _, h3, h4, h5⟩ := hashSort_list L he a trivial (plain_consL hash eq a hresp) hcells
+  have hlen : (a.toList.map fun x => (x, hash x)).length = a.size := by simp
+  rw [hlen] at h1
+  exact ⟨a', h1, plain_perm h3, (plain_sorted_iff hash a').1 h4, (plain_grouped_iff hash eq a').1 h5⟩
+
+/-- **C17 (`HashSorter::SortPrehashed`).** "… (plain and prehashed) … keeping any parallel hash array in
+step": the (item, hash) pairs after the call are a permutation of the pairs before it, the hash array is
+non-decreasing, equal items are contiguous.  `preMem` swaps `hashBegin[i]`, `hashBegin[j]` together with
+the items, as the `iterHashSwapper` lambda does. -/
+theorem C17_sort_prehashed (eq : α → α → Bool) (he : IsEqv eq) (items : Array α) (hashes : Array Nat)
+    (hsz : items.size = hashes.size)
+    (hresp : ∀ x ∈ items.toList.zip hashes.toList, ∀ y ∈ items.toList.zip hashes.toList, eq x.1 y.1 = true → x.2 = y.2)
+    (h64 : ∀ h ∈ hashes.toList, h < 2 ^ 64) :
+    ∃ items' hashes', hashSort preMem eq (items, hashes) items.size = some (items', hashes') ∧
+      items'.size = hashes'.size ∧
+      (items'.toList.zip hashes'.toList).Perm (items.toList.zip hashes.toList) ∧
+      hashes'.toList.Pairwise (· ≤ ·) ∧
+      Grouped eq items'.toList := by
+  have L := preMem_lawful (α := α)
+  have hcells : ∀ x ∈ preCells (items, hashes), x.2 < 2 ^ 64 := by
+    intro x hx
+    exact h64 x.2 (List.of_mem_zip hx).2
+  obtain ⟨s', h1, h2, h3, h4, h5⟩ := hashSort_list L he (items, hashes) hsz hresp hcells
+  have hlen : (items.toList.zip hashes.toList).length = items.size := by simp [hsz]
+  rw [hlen] at h1
+  exact ⟨s'.1, s'.2, h1, h2, h3, (pre_sorted_iff s' h2).1 h4, (pre_grouped_iff eq s' h2).1 h5⟩
+
+/-- **C17 (`RadixSorter<R>::Sort`).** "RadixSorter sorts integers and pointers into non-decreasing order":
+for every radix size `R ≥ 1` (the header allows 1..16) and every code width `W` (8..64 in the C++), any
+array whose codes fit in `W` bits becomes a permutation of itself with non-decreasing codes - including
+the in-place cycle-leader partition, the `shift` clamp for `R > W`, and the `singleRadix` re-scan. -/
+theorem C17_radix_sorts (R W : Nat) (hR : 0 < R) (code : α → Nat) (a : Array α)
+    (hW : ∀ x ∈ a.toList, code x < 2 ^ W) :
+    ∃ a', radixSorterSort (plainMem code) R W noGroupFn a a.size = some a' ∧
+      a'.toList.Perm a.toList ∧ a'.toList.Pairwise (fun x y => code x ≤ code y) := by
+  have L := plainMem_lawful code
+  have hcells : ∀ x ∈ plainCells code a, x.2 < 2 ^ W := by
+    intro x hx
+    obtain ⟨x', hx', rfl⟩ := List.mem_map.1 hx
+    exact hW x' hx'
+  obtain ⟨a', h1, _, h3, h4⟩ := radixSort_list L R W hR a trivial hcells
+  have hlen : (a.toList.map fun x => (x, code x)).length = a.size := by simp
+  rw [hlen] at h1
+  exact ⟨a', h1, plain_perm h3, (plain_sorted_iff code a').1 h4⟩
+
+/-- the in-place partition step alone (`pvRadixSort(begin, codeGetter, iterSwapper, shift, endIndexes)`):
+given the cumulative radix counts it never swaps outside the range, terminates within the `count` swaps the
+model allows, and leaves the range in non-decreasing radix order - for every lawful memory. -/
+theorem C17_partition_correct {σ : Type} {M : Mem σ α} {abs : σ → List (α × Nat)} {ok : σ → Prop}
+    (L : Lawful M abs ok) (R : Nat) : PartSpec abs ok R (partition M R) :=
+  partition_spec L R
+
+/-- `pvGroup` alone, for every equivalence and every lawful memory: the range becomes a permutation of
+itself with equal items contiguous, cells outside the range are untouched. -/
+theorem C17_group_correct {σ : Type} {M : Mem σ α} {abs : σ → List (α × Nat)} {ok : σ → Prop}
+    (L : Lawful M abs ok) (eq : α → α → Bool) (he : IsEqv eq) (pre seg post : List (α × Nat)) (s : σ)
+    (hh : Holds abs ok s (pre ++ seg ++ post)) :
+    ∃ s' seg', group M eq s pre.length seg.length = some s' ∧
+      Holds abs ok s' (pre ++ seg' ++ post) ∧ seg'.Perm seg ∧ GroupedCells eq seg' := by
+  obtain ⟨s', seg', h1, h2, h3, h4⟩ := group_spec L he pre post s seg hh
+  exact ⟨s', seg', h1, h2, h3, (groupedCells_iff_contigL eq seg').2 h4⟩
+
+/-! ## Find / GetBounds / IsSorted -/
+
+/-- **C17 (`HashSorter::Find`).** "On any sequence arranged that way - including the empty sequence - Find
+returns exactly what a linear scan returns": `found` is the result of `List.any`, and when found the returned
+index holds an equal item.  Interpolation, exponential and binary search, the backward and forward
+`pvFindNext` walks are all inside `find`. -/
+theorem C17_find_plain (hash : α → Nat) (eq : α → α → Bool) (he : IsEqv eq) (a : Array α)
+    (hsorted : a.toList.Pairwise (fun x y => hash x ≤ hash y)) (hgrouped : Grouped eq a.toList)
+    (item : α) (hh : hash item < 2 ^ 64) (hresp : ∀ x ∈ a.toList, eq x item = true → hash x = hash item) :
+    ∃ idx found, find (plainMem hash) eq a a.size item (hash item) = some (idx, found) ∧
+      idx ≤ a.size ∧
+      found = a.toList.any (fun x => eq x item) ∧
+      (found = true → ∃ x, a[idx]? = some x ∧ eq x item = true) := by
+  have L := plainMem_lawful hash
+  obtain ⟨idx, found, h1, h2, h3, h4⟩ := find_list L he a trivial ((plain_sorted_iff hash a).2 hsorted)
+    ((plain_grouped_iff hash eq a).2 hgrouped) item (hash item) hh
+    (by
+      intro x hx hxe
+      obtain ⟨x', hx', rfl⟩ := List.mem_map.1 hx
+      exact hresp x' hx' hxe)
+  have hlen : (a.toList.map fun x => (x, hash x)).length = a.size := by simp
+  rw [hlen] at h1 h2
+  refine ⟨idx, found, h1, h2, ?_, ?_⟩
+  · cases hf : found with
+    | true =>
+      obtain ⟨x, hx, hxe⟩ := h3.1 hf
+      obtain ⟨x', hx', rfl⟩ := List.mem_map.1 hx
+      exact (List.any_eq_true.2 ⟨x', hx', hxe⟩).symm
+    | false =>
+      symm
+      apply Bool.eq_false_iff.2
+      intro hany
+      obtain ⟨x, hx, hxe⟩ := List.any_eq_true.1 hany
+      have := h3.2 ⟨(x, hash x), List.mem_map.2 ⟨x, hx, rfl⟩, hxe⟩
+      rw [hf] at this; cases this
+  · intro hf
+    obtain ⟨x, hx, hxe⟩ := h4 hf
+    simp only [List.getElem?_map, Array.getElem?_toList] at hx
+    cases hai : a[idx]? with
+    | none => rw [hai] at hx; cases hx
+    | some y =>
+      rw [hai] at hx
+      simp only [Option.map_some, Option.some.injEq] at hx
+      subst hx
+      exact ⟨y, rfl, hxe⟩
+
+/-- **C17 (`HashSorter::FindPrehashed`).** The same with a parallel hash array and a caller-supplied
+`itemHash`: the hash array is non-decreasing, equal items are contiguous, and cells equal to the sought item
+carry `itemHash`. -/
+theorem C17_find_prehashed (eq : α → α → Bool) (he : IsEqv eq) (items : Array α) (hashes : Array Nat)
+    (hsz : items.size = hashes.size)
+    (hsorted : hashes.toList.Pairwise (· ≤ ·)) (hgrouped : Grouped eq items.toList)
+    (item : α) (itemHash : Nat) (hh : itemHash < 2 ^ 64)
+    (hresp : ∀ x ∈ items.toList.zip hashes.toList, eq x.1 item = true → x.2 = itemHash) :
+    ∃ idx found, find preMem eq (items, hashes) items.size item itemHash = some (idx, found) ∧
+      idx ≤ items.size ∧
+      found = items.toList.any (fun x => eq x item) ∧
+      (found = true → ∃ x, items[idx]? = some x ∧ eq x item = true) := by
+  have L := preMem_lawful (α := α)
+  obtain ⟨idx, found, h1, h2, h3, h4⟩ := find_list L he (items, hashes) hsz ((pre_sorted_iff (items, hashes) hsz).2 hsorted)
+    ((pre_grouped_iff eq (items, hashes) hsz).2 hgrouped) item itemHash hh hresp
+  have hlen : (items.toList.zip hashes.toList).length = items.size := by simp [hsz]
+  rw [hlen] at h1 h2
+  have hfst := pre_map_fst (items, hashes) hsz
+  refine ⟨idx, found, h1, h2, ?_, ?_⟩
+  · cases hf : found with
+    | true =>
+      obtain ⟨x, hx, hxe⟩ := h3.1 hf
+      exact (List.any_eq_true.2 ⟨x.1, (List.of_mem_zip hx).1, hxe⟩).symm
+    | false =>
+      symm
+      apply Bool.eq_false_iff.2
+      intro hany
+      obtain ⟨x, hx, hxe⟩ := List.any_eq_true.1 hany
+      rw [← hfst] at hx
+      obtain ⟨c, hc, rfl⟩ := List.mem_map.1 hx
+      have := h3.2 ⟨c, hc, hxe⟩
+      rw [hf] at this; cases this
+  · intro hf
+    obtain ⟨x, hx, hxe⟩ := h4 hf
+    have hx' := (List.getElem?_zip_eq_some.1 hx).1
+    simp only [Array.getElem?_toList] at hx'
+    exact ⟨x.1, hx', hxe⟩
+
+/-- **C17 (`HashSorter::GetBounds`).** "GetBounds returns exactly what a linear scan returns": the half-open
+index range `[b, e)` contains precisely the indices whose item equals the sought one (empty when there is
+none). -/
+theorem C17_bounds_plain (hash : α → Nat) (eq : α → α → Bool) (he : IsEqv eq) (a : Array α)
+    (hsorted : a.toList.Pairwise (fun x y => hash x ≤ hash y)) (hgrouped : Grouped eq a.toList)
+    (item : α) (hh : hash item < 2 ^ 64) (hresp : ∀ x ∈ a.toList, eq x item = true → hash x = hash item) :
+    ∃ b e, getBounds (plainMem hash) eq a a.size item (hash item) = some (b, e) ∧ b ≤ e ∧ e ≤ a.size ∧
+      ∀ k (hk : k < a.size), eq a[k] item = true ↔ b ≤ k ∧ k < e := by
+  have L := plainMem_lawful hash
+  obtain ⟨b, e, h1, h2, h3, h4⟩ := getBounds_list L he a trivial ((plain_sorted_iff hash a).2 hsorted)
+    ((plain_grouped_iff hash eq a).2 hgrouped) item (hash item) hh
+    (by
+      intro x hx hxe
+      obtain ⟨x', hx', rfl⟩ := List.mem_map.1 hx
+      exact hresp x' hx' hxe)
+  have hlen : (a.toList.map fun x => (x, hash x)).length = a.size := by simp
+  rw [hlen] at h1 h3
+  refine ⟨b, e, h1, h2, h3, ?_⟩
+  intro k hk
+  have := h4 k (by rw [hlen]; exact hk)
+  simpa using this
+
+/-- **C17 (`HashSorter::GetBoundsPrehashed`).** -/
+theorem C17_bounds_prehashed (eq : α → α → Bool) (he : IsEqv eq) (items : Array α) (hashes : Array Nat)
+    (hsz : items.size = hashes.size)
+    (hsorted : hashes.toList.Pairwise (· ≤ ·)) (hgrouped : Grouped eq items.toList)
+    (item : α) (itemHash : Nat) (hh : itemHash < 2 ^ 64)
+    (hresp : ∀ x ∈ items.toList.zip hashes.toList, eq x.1 item = true → x.2 = itemHash) :
+    ∃ b e, getBounds preMem eq (items, hashes) items.size item itemHash = some (b, e) ∧ b ≤ e ∧ e ≤ items.size ∧
+      ∀ k (hk : k < items.size), eq items[k] item = true ↔ b ≤ k ∧ k < e := by
+  have L := preMem_lawful (α := α)
+  obtain ⟨b, e, h1, h2, h3, h4⟩ := getBounds_list L he (items, hashes) hsz ((pre_sorted_iff (items, hashes) hsz).2 hsorted)
+    ((pre_grouped_iff eq (items, hashes) hsz).2 hgrouped) item itemHash hh hresp
+  have hlen : (items.toList.zip hashes.toList).length = items.size := by simp [hsz]
+  rw [hlen] at h1 h3
+  refine ⟨b, e, h1, h2, h3, ?_⟩
+  intro k hk
+  have := h4 k (by rw [hlen]; exact hk)
+  simpa using this
+
+/-- **C17 (`HashSorter::IsSorted`).** "IsSorted returns exactly what a linear scan returns" - here for
+*every* array, arranged or not, empty or not: the answer is `true` iff hash codes are non-decreasing and
+equal items are contiguous. -/
+theorem C17_isSorted_plain (hash : α → Nat) (eq : α → α → Bool) (he : IsEqv eq) (a : Array α)
+    (hresp : ∀ x ∈ a.toList, ∀ y ∈ a.toList, eq x y = true → hash x = hash y) :
+    ∃ r, isSorted (plainMem hash) eq a a.size = some r ∧
+      (r = true ↔ a.toList.Pairwise (fun x y => hash x ≤ hash y) ∧ Grouped eq a.toList) := by
+  have L := plainMem_lawful hash
+  obtain ⟨r, h1, h2⟩ := isSorted_list L he a trivial (plain_consL hash eq a hresp)
+  have hlen : (a.toList.map fun x => (x, hash x)).length = a.size := by simp
+  rw [hlen] at h1
+  refine ⟨r, h1, ?_⟩
+  rw [h2]
+  exact and_congr (plain_sorted_iff hash a) (plain_grouped_iff hash eq a)
+
+/-- **C17 (`HashSorter::IsSortedPrehashed`).** -/
+theorem C17_isSorted_prehashed (eq : α → α → Bool) (he : IsEqv eq) (items : Array α) (hashes : Array Nat)
+    (hsz : items.size = hashes.size)
+    (hresp : ∀ x ∈ items.toList.zip hashes.toList, ∀ y ∈ items.toList.zip hashes.toList, eq x.1 y.1 = true → x.2 = y.2) :
+    ∃ r, isSorted preMem eq (items, hashes) items.size = some r ∧
+      (r = true ↔ hashes.toList.Pairwise (· ≤ ·) ∧ Grouped eq items.toList) := by
+  have L := preMem_lawful (α := α)
+  obtain ⟨r, h1, h2⟩ := isSorted_list L he (items, hashes) hsz hresp
+  have hlen : (items.toList.zip hashes.toList).length = items.size := by simp [hsz]
+  rw [hlen] at h1
+  refine ⟨r, h1, ?_⟩
+  rw [h2]
+  exact and_congr (pre_sorted_iff (items, hashes) hsz) (pre_grouped_iff eq (items, hashes) hsz)
+
+/-! ## Non-vacuity: concrete states meeting the hypotheses, and the model evaluated on them -/
+
+section Examples
+
+/-- items are (key, id); equality looks at the key only -/
+def exEq (a b : Nat × Nat) : Bool := a.1 == b.1
+/-- keys 0 and 3 collide; key 4 hashes to 0, key 5 to 2^64-1 -/
+def exHash (x : Nat × Nat) : Nat :=
+  match x.1 with
+  | 0 => 30 | 1 => 10 | 2 => 20 | 3 => 30 | 4 => 0 | _ => 18446744073709551615
+
+theorem exEq_isEqv : IsEqv exEq where
+  refl := by intro a; simp [exEq]
+  symm := by intro a b h; simp [exEq] at h ⊢; exact h.symm
+  trans := by intro a b c h1 h2; simp [exEq] at h1 h2 ⊢; exact h1.trans h2
+
+theorem exHash_resp (x y : Nat × Nat) (h : exEq x y = true) : exHash x = exHash y := by
+  simp [exEq] at h; simp [exHash, h]
+
+theorem exHash_lt (x : Nat × Nat) : exHash x < 2 ^ 64 := by
+  unfold exHash; split <;> decide
+
+def exInput : Array (Nat × Nat) := #[(0,0),(1,1),(2,2),(0,3),(1,4),(3,5),(0,6)]
+def exSorted : Array (Nat × Nat) := #[(1,1),(1,4),(2,2),(0,3),(0,0),(0,6),(3,5)]
+
+/-- the hypotheses of `C17_sort_plain` hold for `exInput` (equal keys have equal hashes, hashes are 64-bit) -/
+example : ∃ a', hashSort (plainMem exHash) exEq exInput exInput.size = some a' ∧ a'.toList.Perm exInput.toList ∧
+    a'.toList.Pairwise (fun x y => exHash x ≤ exHash y) ∧ Grouped exEq a'.toList :=
+  C17_sort_plain exHash exEq exEq_isEqv exInput (fun x _ y _ h => exHash_resp x y h) (fun x _ => exHash_lt x)
+
+/-- … and the model really produces the arrangement the C++ produces on this input (ids 1 4 2 3 0 6 5) -/
+example : hashSort (plainMem exHash) exEq exInput 7 = some exSorted := by decide +kernel
+
+/-- `exSorted` is arranged: hashes 10 10 20 30 30 30 30 non-decreasing, equal keys contiguous (two different
+keys, 0 and 3, share the hash 30) -/
+theorem exSorted_arranged : exSorted.toList.Pairwise (fun x y => exHash x ≤ exHash y) ∧ Grouped exEq exSorted.toList := by
+  have h := C17_isSorted_plain exHash exEq exEq_isEqv exSorted (fun x _ y _ h => exHash_resp x y h)
+  obtain ⟨r, hr, hiff⟩ := h
+  have : isSorted (plainMem exHash) exEq exSorted exSorted.size = some true := by decide +kernel
+  rw [this] at hr
+  cases hr
+  exact hiff.1 rfl
+
+/-- so the hypotheses of `C17_find_plain` / `C17_bounds_plain` are satisfiable by a state with a hash
+collision between different keys, and the model's answers on it are the linear-scan answers -/
+example : ∃ idx found, find (plainMem exHash) exEq exSorted exSorted.size (3, 99) (exHash (3, 99)) = some (idx, found) ∧
+    idx ≤ exSorted.size ∧ found = exSorted.toList.any (fun x => exEq x (3, 99)) ∧
+    (found = true → ∃ x, exSorted[idx]? = some x ∧ exEq x (3, 99) = true) :=
+  C17_find_plain exHash exEq exEq_isEqv exSorted exSorted_arranged.1 exSorted_arranged.2 (3, 99) (exHash_lt _)
+    (fun x _ h => exHash_resp x _ h)
+
+example : find (plainMem exHash) exEq exSorted 7 (3, 99) 30 = some (6, true) := by decide +kernel
+example : find (plainMem exHash) exEq exSorted 7 (4, 99) 0 = some (0, false) := by decide +kernel      -- below all hashes
+example : find (plainMem exHash) exEq exSorted 7 (5, 99) 18446744073709551615 = some (7, false) := by decide +kernel  -- above all
+example : getBounds (plainMem exHash) exEq exSorted 7 (0, 99) 30 = some (3, 6) := by decide +kernel
+example : getBounds (plainMem exHash) exEq exSorted 7 (3, 99) 30 = some (6, 7) := by decide +kernel
+example : find (plainMem exHash) exEq #[] 0 (0, 99) 30 = some (0, false) := by decide +kernel          -- empty sequence
+example : getBounds (plainMem exHash) exEq #[] 0 (0, 99) 30 = some (0, 0) := by decide +kernel
+example : isSorted (plainMem exHash) exEq #[] 0 = some true := by decide +kernel
+example : isSorted (plainMem exHash) exEq exInput 7 = some false := by decide +kernel
+
+/-- prehashed: the pair arrays stay in step -/
+example : hashSort preMem exEq (exInput, #[30, 10, 20, 30, 10, 30, 30]) 7 = some (exSorted, #[10, 10, 20, 30, 30, 30, 30]) := by decide +kernel
+
+/-- radix sort with a radix wider than the code (the shift clamp; here 4-bit radix on 2-bit codes, 10 > 8 =
+selectionSortMaxCount cells, so the counting pass and the in-place partition run) and with 1-bit radix -/
+example : radixSorterSort (plainMem id) 4 2 noGroupFn #[3, 1, 0, 2, 3, 3, 1, 0, 2, 1] 10 = some #[0, 0, 1, 1, 1, 2, 2, 3, 3, 3] := by decide +kernel
+example : radixSorterSort (plainMem id) 1 8 noGroupFn #[200, 3, 77, 200, 1, 0, 255] 7 = some #[0, 1, 3, 77, 200, 200, 255] := by decide +kernel
+
+/-- an out-of-range access *is* reported by the model: a count larger than the array -/
+example : find (plainMem exHash) exEq exSorted 9 (5, 99) 18446744073709551615 = none := by decide +kernel
+
+end Examples
 
 end Momo.Sort
